@@ -264,6 +264,42 @@ def examplefile(repo):
                     MAKE_PARSER, t.lineno, f.name)
         else:
             res.samples.append(f"{f.name}: message <- strip() of the message section")
+    # the message is handed to mark_error as read: every argument of mark_error is a plain element of the example
+    marks = []
+    for g in m.top_funcs():
+        for n in walk_no_nested_funcs(g.node):
+            if isinstance(n, ast.Call) and isinstance(n.func, ast.Attribute) and n.func.attr == "mark_error":
+                marks.append((g, n))
+    if not marks:
+        raise AnalysisError("make_parser: no call of mark_error found")
+    for g, n in marks:
+        res.instances += 1
+        loop = next((x for x in walk_no_nested_funcs(g.node) if isinstance(x, ast.For) and any(n is y for y in ast.walk(x))), None)
+        lv = loop.target if loop is not None else None
+        plain = True
+        why = ""
+        if len(n.args) < 3:
+            plain, why = False, "fewer than three arguments"
+        else:
+            allowed = set()
+            if isinstance(lv, ast.Name):
+                allowed = {f"{lv.id}[{i}]" for i in range(6)}
+            elif isinstance(lv, ast.Tuple):
+                allowed = {e.id for e in lv.elts if isinstance(e, ast.Name)}
+            # locals assigned from the loop variable's elements without a call are fine too
+            for a in walk_no_nested_funcs(g.node):
+                if isinstance(a, ast.Assign) and isinstance(a.targets[0], ast.Name) and ast.unparse(a.value) in allowed:
+                    allowed.add(a.targets[0].id)
+            for arg in n.args[:3]:
+                if ast.unparse(arg) not in allowed:
+                    plain, why = False, f"`{ast.unparse(arg)[:70]}`"
+        if not plain:
+            res.add(f"{MAKE_PARSER}|{g.name}|mark_error-argument", f"{g.name} passes {why} to mark_error instead of the example's own "
+                    "element: tokens or message are altered between the example file and the parser tables, so a freshly generated "
+                    "parser differs from the shipped one (R-ERRCODES ties the shipped tables to the file as written)",
+                    MAKE_PARSER, n.lineno, g.name)
+        elif len(res.samples) < 3:
+            res.samples.append(f"{g.name}: mark_error({', '.join(ast.unparse(a) for a in n.args[:3])})")
     res.analysed = [MAKE_PARSER, "sa/toksim.py (the checker's reader)"]
     return res
 
